@@ -707,6 +707,59 @@ class Rewriter:
             self.count("R15 closure param `_` named", n)
         return text
 
+    ERR_CTORS = ("policy_error", "transaction_format_error", "script_format_error", "mismatch_error", "vx_transaction_format_error")
+
+    def error_closures(self, text):
+        """R27: a closure whose whole body is a call of a ValidationError constructor (`|e| policy_error(..)`,
+        `|| { policy_error(..) }`) or `|ve| ve.prepend_msg(..)` gets a result contract, so that `map_err(..)?` / `ok_or_else(..)?`
+        exits know which KIND of error they return (only unknown_destinations_error builds the approvable kind).  The
+        closure body stays the real text."""
+        if "prelude/deps.rs" not in self.unit_text:       # the unit has no ValidationError model
+            return text
+        out = []
+        pos = 0
+        pat = re.compile(r"\|([^|\n]*)\|\s*(\{?)\s*(?:(" + "|".join(self.ERR_CTORS) + r")\s*\(|(\w+)\s*\.\s*prepend_msg\s*\()")
+        while True:
+            m = pat.search(text, pos)
+            if not m:
+                break
+            # find the end of the call
+            open_paren = m.end() - 1
+            toks = tokenize(text[open_paren:])
+            e = match_close(toks, 0)
+            call_end = open_paren + toks[e].end
+            rest = text[call_end:]
+            if m.group(2) == "{":
+                mm = re.match(r"\s*\}", rest)
+                if not mm:
+                    pos = m.end()
+                    continue
+                end = call_end + mm.end()
+            else:
+                if not re.match(r"\s*[),]", rest):
+                    pos = m.end()
+                    continue
+                end = call_end
+            params = m.group(1)
+            call = text[(m.start(3) if m.group(3) else m.start(4)):call_end]
+            if m.group(3):
+                ens = "!ve_unknown_dest(vx_e)"
+            else:
+                if params.strip() != m.group(4):
+                    pos = m.end()
+                    continue
+                ens = "ve_unknown_dest(vx_e) == ve_unknown_dest(%s)" % m.group(4)
+                params = "%s: ValidationError" % m.group(4)
+            whole = text[m.start():end]
+            repl = "|%s| -> (vx_e: ValidationError) ensures %s { %s }" % (params, ens, call)
+            repl = repl + "\n" * (whole.count("\n") - repl.count("\n"))
+            out.append(text[pos:m.start()])
+            out.append(repl)
+            pos = end
+            self.count("R27 error-constructor closure given a result contract (body kept)")
+        out.append(text[pos:])
+        return "".join(out)
+
     def drop_use_lines(self, text):
         def f(m):
             self.count("R9 use line dropped")
@@ -792,6 +845,7 @@ class Unit:
         self.default_props = []
         self.cur_fn = None
         self.name = os.path.basename(template_path).replace(".vx.rs", "")
+        self.unit_text_all = open(template_path).read()
 
     def rf(self, rel):
         if rel not in self.files:
@@ -952,6 +1006,8 @@ class Unit:
             rw.count("R9 const %s initialiser `%s` written as literal %s" % (name, copts["expect"], copts["as"]))
         text = rw.apply_maps(text, self.maps, "const")
         text = re.sub(r"\bpub\s*\(\s*crate\s*\)", "pub", text)
+        if copts.get("vis") == "pub" and re.match(r"\s*const\b", text):
+            text = re.sub(r"^(\s*)const\b", r"\1pub const", text, count=1)      # visibility only (specs of pub fns name it)
         line0 = f.line_of(it.start)
         for k, ln in enumerate(text.split("\n")):
             self.out.append((ln, ("repo", rel, line0 + k)))
@@ -1157,6 +1213,8 @@ class Unit:
             if n_exp:
                 rw.count("R7 noabort: .expect(..) -> .unwrap() (obligation)", n_exp)
         body = rw.apply_maps(body, self.maps, "body")
+        rw.unit_text = self.unit_text_all
+        body = rw.error_closures(body)
         for rx, repl in subs:
             body, nsub = rx.subn(repl, body)
             if nsub == 0:
